@@ -59,7 +59,7 @@ class C06(object):
     time_keys = {"steps": "scheduler steps (one per instrumented access, GOMP entry or allocator call)"}
     fault_keys = ["switches", "realloc_moved", "realloc_stay", "alloc", "free", "parallel_runs", "concurrent_caller_runs"]
     tiers = {"quick": {"runs": 24000, "budget_s": 60, "selftest_every": 50, "fresh_selftest": 10},
-             "thorough": {"runs": 2500000, "budget_s": 800, "selftest_every": 400, "fresh_selftest": 20}}
+             "thorough": {"runs": 9000000, "budget_s": 800, "selftest_every": 400, "fresh_selftest": 20}}
     rule = ("one run = (kernel score|score_and_refine|refine_assigned, UBI good or poor, 0..20000 peaks from integer "
             "hkl up to |h|~1000 + noise mixed with random vectors, tolerance, label selection incl. empty/coplanar) "
             "executed twice with complementary garbage on the simulator-owned stack and in the outputs; distinct = "
